@@ -806,7 +806,7 @@ theorem typedOk_genFile (t : Idl) (f : GoFile) (hm : ∀ m ∈ t.members, Member
     _, e1, e2, e3, e4, e5, e6, e7, e8, rfl⟩ := genFile_inv hf
   have sub : ∀ (p : Member → Bool), ∀ m ∈ t.members.filter p, MemberGood m :=
     fun p m hm' => hm m (List.mem_filter.mp hm').1
-  generalize hD : (assembleFile t body aliases errors clients ifaceMethods errorReplies methodReplies dummies cases).decls
+  generalize hD : (assembleFile t aliases errors clients ifaceMethods errorReplies methodReplies dummies cases).decls
     = decls at hnd
   have hDeq : decls = aliases ++ errors ++ [dispatchErrorView t.name t.errors] ++ clients
       ++ [.iface (pkgName t.name ++ str "Interface") ifaceMethods,
